@@ -115,7 +115,8 @@ func ParseHeaderDirective(header http.Header) *HeaderDirectives {
 			}
 			hd.CacheControl.value = typeutils.Some(cc)
 		case "Expires":
-			if t, err := time.Parse(http.TimeFormat, value); err == nil {
+			// http.ParseTime accepts the three HTTP-date forms (IMF-fixdate, RFC 850, asctime)
+			if t, err := http.ParseTime(value); err == nil {
 				hd.Expires.value = typeutils.Some(t)
 			} else {
 				slog.Debug("Error parsing Expires header", "error", err, "value", value)
